@@ -498,7 +498,7 @@ package flags
 //@ pure func okResult(p *Parser, r error) bool = r == nil || (isTyped(r, ErrUnknownFlag) && (p.Options&IgnoreUnknown != 0 || p.UnknownOptionHandler != nil))
 
 //@ func (p *Parser) ParseArgs(args []string) (rest []string, err error)
-//@   props C03 C04 C07 C09 C10
+//@   props C03 C04 C07 C09 C10 C06 C05
 //@   requires p != nil
 //@   requires is(p.internalError, *Error) ==> as(p.internalError, *Error) != nil
 //@   let e0 := ncalls(Commander.Execute)
@@ -512,6 +512,9 @@ package flags
 //@   let est0 := ncalls(parseState.estimateCommand)
 //@   let fp0 := ncalls(Command.fillParseState)
 //@   let compl := os.Getenv("GO_FLAGS_COMPLETION") != ""
+// (C05: the pass that arms clearReferenceBeforeSet touches nothing else - in particular an option that an
+// INI file read as defaults has already settled (preventDefault) stays settled until the defaults pass)
+//@   loop 1 invariant[C05] forall(k, 0, iterlen(Command.eachOption, p.Command), old(iterelem(Command.eachOption, p.Command, k, 2).preventDefault) ==> iterelem(Command.eachOption, p.Command, k, 2).preventDefault)
 //@   loop 2 invariant s.err == nil ==> nfails(convert) == old(nfails(convert))
 //@   loop 2 invariant s != nil && s.command != nil && lookupOK(s)
 //@   loop 2 invariant ncalls(Command.fillParseState) > old(ncalls(Command.fillParseState)) && s.command == callarg(Command.fillParseState, ncalls(Command.fillParseState) - 1, 0)
@@ -539,9 +542,9 @@ package flags
 // "--" terminator or after the first non-option under PassAfterNonOption - went through addArgs, i.e.
 // through the positional queue, as one batch; the exception is the stop at an unknown command word, which
 // ends in estimateCommand's error)
-//@   loop 2 exitcheck[C10,C03] s.err == nil && len(s.args) > 0 && (len(s.command.commands) == 0 || s.command.SubcommandsOptional) ==> ncalls(parseState.addArgs) > old(ncalls(parseState.addArgs))
-//@   loop 2 exitcheck[C10,C03] s.err == nil && len(s.args) > 0 && (len(s.command.commands) == 0 || s.command.SubcommandsOptional) ==> callarg(parseState.addArgs, ncalls(parseState.addArgs) - 1, 0) == s
-//@   loop 2 exitcheck[C10,C03] s.err == nil && len(s.args) > 0 && (len(s.command.commands) == 0 || s.command.SubcommandsOptional) ==> same(callarg(parseState.addArgs, ncalls(parseState.addArgs) - 1, 1), s.args)
+//@   loop 2 exitcheck[C10,C03,C06] s.err == nil && len(s.args) > 0 && (len(s.command.commands) == 0 || s.command.SubcommandsOptional) ==> ncalls(parseState.addArgs) > old(ncalls(parseState.addArgs))
+//@   loop 2 exitcheck[C10,C03,C06] s.err == nil && len(s.args) > 0 && (len(s.command.commands) == 0 || s.command.SubcommandsOptional) ==> callarg(parseState.addArgs, ncalls(parseState.addArgs) - 1, 0) == s
+//@   loop 2 exitcheck[C10,C03,C06] s.err == nil && len(s.args) > 0 && (len(s.command.commands) == 0 || s.command.SubcommandsOptional) ==> same(callarg(parseState.addArgs, ncalls(parseState.addArgs) - 1, 1), s.args)
 //@   loop 3 invariant s != nil && s.command != nil
 //@   loop 3 invariant ncalls(Command.fillParseState) > old(ncalls(Command.fillParseState)) && s.command == callarg(Command.fillParseState, ncalls(Command.fillParseState) - 1, 0)
 //@   loop 3 invariant s.err == nil ==> nfails(convert) == old(nfails(convert))
@@ -1094,9 +1097,9 @@ package flags
 // read ("invalidates"/transient), so it has to be copied before that.
 //@ pure func catChunks(a int, b int) string = ite(b <= a, "", catChunks(a, b-1) + string(callres(bufio.Reader.ReadLine, b-1, 0)))
 //@ func readFullLine(reader *bufio.Reader) (s string, err error)
-//@   props C14 C04 C12
-//@   loop 1 invariant[C12] !transient(line) && unfold(catChunks(old(ncalls(bufio.Reader.ReadLine)), ncalls(bufio.Reader.ReadLine))) && string(line) == catChunks(old(ncalls(bufio.Reader.ReadLine)), ncalls(bufio.Reader.ReadLine))
-//@   ensures[C12] unfold(catChunks(old(ncalls(bufio.Reader.ReadLine)), ncalls(bufio.Reader.ReadLine))) && err == nil ==> s == catChunks(old(ncalls(bufio.Reader.ReadLine)), ncalls(bufio.Reader.ReadLine))
+//@   props C14 C04 C12 C13
+//@   loop 1 invariant[C12,C13] !transient(line) && unfold(catChunks(old(ncalls(bufio.Reader.ReadLine)), ncalls(bufio.Reader.ReadLine))) && string(line) == catChunks(old(ncalls(bufio.Reader.ReadLine)), ncalls(bufio.Reader.ReadLine))
+//@   ensures[C12,C13] unfold(catChunks(old(ncalls(bufio.Reader.ReadLine)), ncalls(bufio.Reader.ReadLine))) && err == nil ==> s == catChunks(old(ncalls(bufio.Reader.ReadLine)), ncalls(bufio.Reader.ReadLine))
 //@   traced
 //@   requires reader != nil && ncalls(bufio.Reader.ReadLine) <= readBound(reader)
 //@   loop 1 invariant ncalls(bufio.Reader.ReadLine) <= readBound(reader)
@@ -1984,7 +1987,7 @@ package flags
 // character and a default on a boolean flag are refused with their typed errors.
 //@ pure func shortOf(s string) rune = ite(utf8.RuneCountInString(s) == 1, fst(utf8.DecodeRuneInString(s)), rune(0))
 //@ func (g *Group) scanStruct(realval reflect.Value, sfield *reflect.StructField, handler scanHandler) (err error)
-//@   props C19 C04
+//@   props C19 C04 C07
 //@   requires g != nil && handler != nil
 //@   loop 1 invariant 0 <= i
 //@   loop 1 decreases stype.NumField() - i
@@ -1993,9 +1996,12 @@ package flags
 //@   at[C19] call append #1: option.ValueName == mtag.Get("value-name") && option.DefaultMask == mtag.Get("default-mask") && option.EnvDefaultKey == mtag.Get("env") && option.EnvDefaultDelim == mtag.Get("env-delim")
 //@   at[C19] call append #1: option.OptionalArgument == !isStringFalsy(mtag.Get("optional")) && option.Required == !isStringFalsy(mtag.Get("required")) && option.Hidden == !isStringFalsy(mtag.Get("hidden"))
 //@   at[C19] call append #1: option.group == g && option.value == realval.Field(i) && utf8.RuneCountInString(mtag.Get("short")) <= 1 && !(option.isBool() && !isnil(option.Default))
-//@   at[C19] call append #1: !(mtag.Get("long") == "" && mtag.Get("short") == "" && mtag.Get("ini-name") == "") && mtag.Get("no-flag") == ""
+//@   at[C19,C07] call append #1: !(mtag.Get("long") == "" && mtag.Get("short") == "" && mtag.Get("ini-name") == "") && mtag.Get("no-flag") == ""
 //@   at[C19] call newErrorf #1: rc > 1
 //@   at[C19] call newErrorf #2: option.isBool() && !isnil(option.Default)
+// (a field tagged no-flag declares nothing, whatever its type: the scan does not descend into it either)
+//@   at[C19,C07] call Group.scanStruct #1: mtag.Get("no-flag") == "" && arg(0) == realval.Field(i)
+//@   at[C19,C07] call Group.scanStruct #2: mtag.Get("no-flag") == ""
 
 
 // INI writer: one section per non-hidden group of the command, then every
@@ -2026,7 +2032,7 @@ package flags
 //@   assigns Command.commands
 //@ assumed func (g *Group) scanSubGroupHandler(realval reflect.Value, sfield *reflect.StructField) (ok bool, err error)
 //@ func (c *Command) scanSubcommandHandler_closure1(parentg *Group, realval reflect.Value, sfield *reflect.StructField) (ok bool, err error)
-//@   props C19 C04 C06 C10 C08
+//@   props C19 C04 C06 C10 C08 C09
 //@   requires c != nil && parentg != nil && sfield != nil
 //@   loop 1 invariant[C10] forall(J, 0, len(old(c.args)), c.args[J] == old(c.args)[J])
 //@   requires forall(J, 0, len(c.args), allocated(c.args[J]))
@@ -2046,7 +2052,7 @@ package flags
 // - hidden, subcommands-optional, aliases - lands on the NEW command: the attributes of the command being
 // scanned never change)
 //@   at[C19,C08] call Command.AddCommand #1: arg(0) == mtag.Get("command") && arg(1) == mtag.Get("description") && arg(2) == mtag.Get("long-description") && len(mtag.Get("command")) != 0 && len(mtag.Get("positional-args")) == 0
-//@   ensures[C19,C08] c.SubcommandsOptional == old(c.SubcommandsOptional)
+//@   ensures[C19,C08,C09] c.SubcommandsOptional == old(c.SubcommandsOptional)
 //@   ensures[C19,C08] c.Hidden == old(c.Hidden)
 //@   ensures[C19,C08] same(c.Aliases, old(c.Aliases))
 //@   ensures[C19,C08] c.Name == old(c.Name)
